@@ -121,6 +121,11 @@ def run(ctx, report):
             kind = "w" if step == 0 else rng.choice(["a", "a", "o", "r", "r", "g", "s"] if nparts else ["a", "a", "r", "r", "g", "s"])
             if nparts and step == 2 and h % 5 in (1, 3):
                 kind = "o"       # every key-shape variant sees at least one partition overwrite
+            forced_sp = None
+            if step == 1 and h % 5 in (0, 2):
+                # directed: write_row_groups(sort_pnames=True) straight after a fresh write, i.e. when every part
+                # name is already in step with its position (h%5==2: no partition column, so nothing at all moves)
+                kind, forced_sp = "g", True
             n = rng.choice([1, 2, 4, 7])
             offs = rng.choice([None, [0], [0, n // 2] if n > 1 else [0], 2, 3])
             rec = {"check": "history", "partition_columns": parts, "history": list(hist), "step": step, "frame_shape": dict(shape)}
@@ -144,6 +149,8 @@ def run(ctx, report):
                 elif kind == "g":
                     pf = fastparquet.ParquetFile(path)
                     sp = rng.random() < 0.7
+                    if forced_sp is not None:
+                        sp = forced_sp
                     from fastparquet.api import partitions
                     pf.write_row_groups(df, row_group_offsets=offs, sort_key=lambda rg: partitions(rg) or "", sort_pnames=sp)
                     opm = f"[g,{nd_str(nd)},{1 if sp else 0}]"
